@@ -683,6 +683,9 @@ func runC08(c *Ctx) {
 	cleanEdgesRule(c)
 	removalRule(c)
 	graftCopiesEdges(c)
+	relateAddsTarget(c)
+	// extraction results are well-formed: a node enters the result once (visited-set discipline)
+	traversalGuards(c)
 	intersectRules(c, "C08")
 	const R = "loop-totality"
 	c.rule(R, loopRuleText)
@@ -706,6 +709,34 @@ func runC10(c *Ctx) {
 	c.rule(RL, loopRuleText)
 	lds := pkgFilter(c.reachDecls(RL, "sbom.(*NodeList).Intersect"), "sbom.(*NodeList).", "sbom.(*Edge).AddDestinationById")
 	c.loopTotality(RL, lds, loopPolicies, commonSkips)
+	// "only edges found in at least one operand": Intersect builds its result from copies — merging the
+	// second operand's targets into edges still shared with the first operand makes later
+	// intersections see edges that exist in neither operand as given
+	{
+		const RW = "no-operand-write"
+		c.rule(RW, "Intersect writes no memory reachable from either operand (origin dataflow with callee summaries)")
+		o := newOrigins(c.P)
+		if fn := c.P.Func("sbom.(*NodeList).Intersect"); fn != nil {
+			for j, pn := range []string{"receiver", "argument"} {
+				var w []mutation
+				if ss := o.sums[fn]; ss != nil {
+					for _, m := range ss.muts {
+						if m.param == j {
+							w = append(w, m)
+						}
+					}
+				}
+				key := "sbom.(*NodeList).Intersect#" + pn
+				if len(w) > 0 {
+					c.bad(RW, key, c.P.Pos(w[0].pos), describeMuts(c, "sbom.(*NodeList).Intersect", pn, w))
+				} else {
+					c.ok(RW, key, c.P.Pos(fn.Pos()), "the operand is only read")
+				}
+			}
+		}
+	}
+	// the surviving node is Copy-of-first updated from Copy-of-second: a date must survive both
+	timestampPresenceRule(c, "timestamp-presence-by-nil", pkgFilter(c.reachDecls("timestamp-presence-by-nil", "sbom.(*NodeList).Intersect"), "sbom."))
 }
 
 // calleeBase: the method/function name a call resolves to, under its recorded (canonical) name —
